@@ -21,7 +21,7 @@ from xv import gen_programs as gp
 PROPERTY = 'C19'
 LEVEL = 'exploration'
 RULE = ("modules of 1..4 functions/methods whose doctests are C01 programs (multi-line statements, decorators, triple-quoted "
-        "strings with unprefixed lines, wants of several lines, comments, directives, star-imports, top-level await) in a "
+        "strings with unprefixed lines, wants of several lines, comments, directives, star-imports at top level and nested in a compound statement, top-level await) in a "
         "google Example block, some force-disabled, some with two blocks per docstring.  Non-trivial = the doctest has a "
         "compound or multi-line statement and a want; distinct by module source hash")
 ASSUMPTIONS = [
@@ -34,8 +34,13 @@ NSHARDS = {'quick': 16, 'thorough': 16}
 
 
 def required_cells(tier):
-    return ['functions-match', 'body-lines-equal', 'want-comments-equal', 'star-import-removed', 'disabled-omitted',
+    return ['functions-match', 'body-lines-equal', 'want-comments-equal', 'star-import-removed',
+            'star-import-nested-removed', 'dump-compiles', 'disabled-omitted',
             'two-blocks', 'multi-line-want', 'cli', 'kind:mlstr', 'kind:deco', 'kind:await', 'kind:comment']
+
+
+AWAIT_ERRORS = ("'await' outside async function", "'async with' outside async function",
+                "'async for' outside async function", 'asynchronous comprehension outside of an asynchronous function')
 
 
 def gen_doctest(rng, uid):
@@ -46,6 +51,13 @@ def gen_doctest(rng, uid):
     if rng.random() < 0.3:
         stmts.insert(0, gp.Stmt(['from os.path import *'], 'starimport', 0))
         star = True
+    if rng.random() < 0.2:
+        # a star import that is not at the start of its line: nested in a compound statement, next to a
+        # sibling statement that keeps the block non-empty once the import is removed
+        k = 9000 + rng.randrange(1000)
+        stmts.insert(rng.randrange(len(stmts) + 1),
+                     gp.Stmt(['if %d:' % k, '    from os.path import *  # NOQA', '    quiet(%d)' % k], 'starimport_nested', k))
+        star = 'nested'
     ref = gp.run_reference(stmts)
     if ref.error is not None:
         raise AssertionError('generator produced a failing program %r' % (ref.error,))
@@ -99,6 +111,8 @@ def gen_module(rng, uid):
                 expect.append({'callname': callname, 'num': b, 'stmts': stmts, 'wants': wants, 'star': star})
             if star:
                 feats.add('star-import-removed')
+            if star == 'nested' and not is_disabled:
+                feats.add('star-import-nested-removed')
             for st in stmts:
                 feats.add('kind:' + {'mlstr_prompt': 'mlstr', 'deco2': 'deco', 'call': 'await' if 'await' in st.lines[0] else 'call'}.get(st.kind, st.kind))
         if nblocks == 2:
@@ -144,6 +158,23 @@ def check_dump_text(ctx, text, expect, modname, src, case, via):
     except SyntaxError as ex:
         return bad('dump-invalid-python', 'the dump is not valid Python: %r' % (ex,))
     ctx.event('dumps_parsed')
+    try:
+        # ast.parse accepts what the compiler still rejects ('import *' inside a function, 'return' outside one ...)
+        compile(text, '<dump>', 'exec')
+        ctx.cell('dump-compiles')
+    except SyntaxError as ex:
+        if not any(m in str(ex) for m in AWAIT_ERRORS):
+            return bad('dump-invalid-python', 'the dump parses but does not compile: %r' % (ex,))
+        # finding F16: a doctest that uses top-level await is written into a plain 'def'.  Reported under its own
+        # mechanism; the rest of the dump must still compile once the test functions are made coroutines
+        ctx.violation('dump-await-in-plain-def', 'the dump parses but does not compile: %r (a doctest using top-level await '
+                      'is written into a plain def) (via %s)\n--- dump ---\n%s' % (ex, via, text), case, compile_error=str(ex))
+        try:
+            compile(text.replace('\ndef test_', '\nasync def test_').replace('def test_', 'async def test_', 1)
+                    if text.startswith('def test_') else text.replace('\ndef test_', '\nasync def test_'), '<dump>', 'exec')
+            ctx.cell('dump-compiles-as-coroutines')
+        except SyntaxError as ex2:
+            return bad('dump-invalid-python', 'the dump does not compile even with the test functions made coroutines: %r' % (ex2,))
     fns = [n for n in tree.body if isinstance(n, ast.FunctionDef)]
     others = [n for n in tree.body if not isinstance(n, ast.FunctionDef)]
     if len(fns) != len(expect) or others:
@@ -246,12 +277,15 @@ def replay(case, ctx):
 
 
 def classify(v):
+    # F16 by mechanism: the compiler's complaint is about await / async constructs outside a coroutine
+    if v.get('mechanism') == 'dump-await-in-plain-def' and any(m in v.get('compile_error', '') for m in AWAIT_ERRORS):
+        return 'dump-await-in-plain-def'
     return None
 
 
 LEVEL_TEXT = ("Exploration: hundreds/thousands of generated modules are converted by the real dump command; the output is "
               "parsed with ast and each function body is compared line by line with the de-prompted doctest, the want comment "
               "blocks with the wants.")
-LEVEL_NOTE = ("Trusted: ast.parse for 'valid Python'; the generator's statement list as the ground truth of what the doctest "
+LEVEL_NOTE = ("Trusted: ast.parse + compile() for 'valid Python'; the generator's statement list as the ground truth of what the doctest "
               "holds.")
 TECHNIQUE = "runtime monitor: stdout of the dump command parsed with ast and compared line-by-line with the generator's statement list (conservation of statements and wants)"
